@@ -62,10 +62,12 @@ fn inv(ctx: &SplitCtx, block: usize) -> bool {
     }
 }
 
-fn any_ctx(block_pages: usize) -> SplitCtx {
+/// `count` is concrete per harness: the slot address in the 4 KiB index page is `12 + count * 24`, and a symbolic offset
+/// into a 4 KiB array makes CBMC's byte-update encoding explode (measured: 10 GB in SSA conversion).  Offsets stay symbolic.
+fn any_ctx(block_pages: usize, count: usize) -> SplitCtx {
     let ctx = SplitCtx {
         current_part_blob_offset: pages(block_pages),
-        current_blob_index: BlobIndex { bytes: IoSliceMut::new(INDEX), count: kani::any() },
+        current_blob_index: BlobIndex { bytes: IoSliceMut::new(INDEX), count },
         current_blob_block_offset: pages(block_pages),
         block_size: block_pages * PAGE,
         blob_index_size: INDEX,
@@ -75,10 +77,10 @@ fn any_ctx(block_pages: usize) -> SplitCtx {
 }
 
 /// W1 + W2 for a batch of N entries (N concrete, sizes symbolic 1..=MAX_ENTRY) from an arbitrary valid context.
-fn w1<const N: usize, const BP: usize>() {
+fn w1<const N: usize, const BP: usize, const C: usize>() {
     #[allow(non_snake_case)]
     let BLOCK = BP * PAGE;
-    let mut ctx = any_ctx(BP);
+    let mut ctx = any_ctx(BP, C);
     let pre_b = ctx.current_blob_block_offset;
     let pre_p = ctx.current_part_blob_offset;
     let pre_c = ctx.current_blob_index.count;
@@ -104,85 +106,101 @@ fn w1<const N: usize, const BP: usize>() {
     let batch = Splitter::split(&mut ctx, bytes.clone(), infos);
 
     // ---- oracle ----
+    // (loops have concrete trip counts N+1 / N / N with guards: a batch of N entries has at most N non-empty parts, and at
+    //  most one leading block without parts - when the first entry does not fit the current block)
     assert!(inv(&ctx, BLOCK), "C07-W1: split context invariant broken after a batch");
-    // walk blocks / parts / indices in order; `cur` = first free byte of the block being walked
+    assert!(batch.blocks.len() >= 1 && batch.blocks.len() <= N + 1, "C07-W1: more blocks than entries + 1");
     let mut seen = 0usize; // entries seen so far, must come out in input order
     let mut cur = pre_b + pre_p; // in the first block everything below this is owned by earlier batches
     let mut open_blob = pre_b; // start of the blob the walk is in
     let mut open_count = pre_c; // entries of that blob written by earlier batches + this walk
+    let mut last_part: Option<&BlobPart> = None;
     let mut bi = 0;
-    while bi < batch.blocks.len() {
-        if bi > 0 {
-            cur = 0;
-            open_blob = usize::MAX;
-            open_count = 0;
-        }
-        let parts = &batch.blocks[bi].blob_parts;
-        let mut pi = 0;
-        while pi < parts.len() {
-            let part = &parts[pi];
-            let data_at = part.blob_block_offset + part.part_blob_offset;
-            assert!(part.blob_block_offset % PAGE == 0 && part.part_blob_offset % PAGE == 0 && part.data.len() % PAGE == 0, "C07-W1: unaligned blob part");
-            assert!(part.part_blob_offset >= INDEX, "C07-W1: data part overlaps its own blob index page");
-            assert!(data_at + part.data.len() <= BLOCK, "C07-W1: blob part written beyond the end of the block");
-            if part.blob_block_offset == open_blob {
-                // continuation of the open blob: data goes right behind what the blob already holds
-                assert!(data_at == cur, "C07-W1: continued blob part does not start at the end of the previous part");
-            } else {
-                // a new blob: its index page must not overlap anything written before in this block
-                assert!(part.blob_block_offset >= cur, "C07-W1: new blob index page overlaps earlier data in the block");
-                assert!(part.part_blob_offset == INDEX, "C07-W1: first part of a blob does not start right behind the index page");
-                open_blob = part.blob_block_offset;
+    while bi < N + 1 {
+        if bi < batch.blocks.len() {
+            if bi > 0 {
+                cur = 0;
+                open_blob = usize::MAX;
                 open_count = 0;
             }
-            assert!(!part.indices.is_empty(), "C07-W1: empty blob part emitted");
-            // entries of the part: contiguous, in input order, lengths / hashes / sequences preserved
-            let mut at = data_at;
-            let mut ii = 0;
-            while ii < part.indices.len() {
-                let ix = &part.indices[ii];
-                assert!(seen < N, "C07-W1: more entries emitted than submitted (duplicate)");
-                assert!(ix.hash == 100 + seen as u64 && ix.sequence == 1000 + seen as u64 && ix.len as usize == lens[seen], "C07-W1: entry order / identity changed by the splitter");
-                // address the flusher records: blob offset + index offset (flusher.rs: `blob_offset as u32 + index.offset`)
-                let addr = part.blob_block_offset + ix.offset as usize;
-                assert!(addr == at, "C07-W1: recorded entry address is not where its bytes are written");
-                assert!(addr + bits::align_up(PAGE, lens[seen]) <= BLOCK, "C07-W1: entry crosses the block end");
-                // the bytes written there are the entry's bytes of the batch buffer
-                let src = part.data.as_raw_parts().0 as usize + (at - data_at);
-                assert!(src == base + offs[seen], "C07-W1: entry address points at another entry's bytes");
-                at += bits::align_up(PAGE, lens[seen]);
-                seen += 1;
-                ii += 1;
-            }
-            assert!(at == data_at + part.data.len(), "C07-W1: data part length differs from its entries");
-            open_count += part.indices.len();
-            assert!(open_count <= CAP, "C07-W1: more entries in a blob than its index page holds");
-            cur = at;
-
-            // ---- W2: the sealed index page read back by the real reader lists exactly the blob's entries ----
-            let read = BlobIndexReader::read(&part.index);
-            match read {
-                None => panic!("C07-W2: index page written by the splitter is rejected by the reader"),
-                Some(v) => {
-                    assert!(v.len() == open_count, "C07-W2: reader sees a different number of entries than the blob holds");
-                    // the entries of this part are the tail of the page
-                    let first = open_count - part.indices.len();
-                    let mut k = 0;
-                    while k < part.indices.len() {
-                        assert!(v[first + k] == part.indices[k], "C07-W2: reader returns a different entry than the splitter recorded");
-                        k += 1;
+            let parts = &batch.blocks[bi].blob_parts;
+            assert!(parts.len() <= N, "C07-W1: more blob parts than entries");
+            assert!(bi == 0 || !parts.is_empty(), "C07-W1: a block without data emitted after the first one");
+            let mut pi = 0;
+            while pi < N {
+                if pi < parts.len() {
+                    let part = &parts[pi];
+                    let data_at = part.blob_block_offset + part.part_blob_offset;
+                    assert!(part.blob_block_offset % PAGE == 0 && part.part_blob_offset % PAGE == 0 && part.data.len() % PAGE == 0, "C07-W1: unaligned blob part");
+                    assert!(part.part_blob_offset >= INDEX, "C07-W1: data part overlaps its own blob index page");
+                    assert!(data_at + part.data.len() <= BLOCK, "C07-W1: blob part written beyond the end of the block");
+                    if part.blob_block_offset == open_blob {
+                        // continuation of the open blob: data goes right behind what the blob already holds
+                        assert!(data_at == cur, "C07-W1: continued blob part does not start at the end of the previous part");
+                    } else {
+                        // a new blob: its index page must not overlap anything written before in this block
+                        assert!(part.blob_block_offset >= cur, "C07-W1: new blob index page overlaps earlier data in the block");
+                        assert!(part.part_blob_offset == INDEX, "C07-W1: first part of a blob does not start right behind the index page");
+                        open_blob = part.blob_block_offset;
+                        open_count = 0;
                     }
-                    // scanner's step (scanner.rs: last.offset + last.aligned()) from the blob start = end of the blob's data
-                    let last = &v[v.len() - 1];
-                    assert!(part.blob_block_offset + last.offset as usize + last.aligned() == cur, "C07-W2: scanner step does not land at the end of the blob");
-                    std::mem::forget(v);
+                    assert!(!part.indices.is_empty() && part.indices.len() <= N, "C07-W1: empty / oversized blob part emitted");
+                    // entries of the part: contiguous, in input order, lengths / hashes / sequences preserved
+                    let mut at = data_at;
+                    let mut ii = 0;
+                    while ii < N {
+                        if ii < part.indices.len() {
+                            let ix = &part.indices[ii];
+                            assert!(seen < N, "C07-W1: more entries emitted than submitted (duplicate)");
+                            assert!(ix.hash == 100 + seen as u64 && ix.sequence == 1000 + seen as u64 && ix.len as usize == lens[seen], "C07-W1: entry order / identity changed by the splitter");
+                            // address the flusher records: blob offset + index offset (flusher.rs: `blob_offset as u32 + index.offset`)
+                            let addr = part.blob_block_offset + ix.offset as usize;
+                            assert!(addr == at, "C07-W1: recorded entry address is not where its bytes are written");
+                            assert!(addr + bits::align_up(PAGE, lens[seen]) <= BLOCK, "C07-W1: entry crosses the block end");
+                            // the bytes written there are the entry's bytes of the batch buffer
+                            let src = part.data.as_raw_parts().0 as usize + (at - data_at);
+                            assert!(src == base + offs[seen], "C07-W1: entry address points at another entry's bytes");
+                            // the blob index page carries the entry in the slot the reader will look at
+                            let slot = BlobIndex::INDEX_OFFSET + (open_count + ii) * 24;
+                            assert!(slot + 24 <= INDEX, "C07-W1: more entries in a blob than its index page holds");
+                            assert!(BlobEntryIndex::read(&part.index[slot..slot + 24]) == *ix, "C07-W2: index page slot differs from the recorded entry");
+                            at += bits::align_up(PAGE, lens[seen]);
+                            seen += 1;
+                        }
+                        ii += 1;
+                    }
+                    assert!(at == data_at + part.data.len(), "C07-W1: data part length differs from its entries");
+                    open_count += part.indices.len();
+                    assert!(open_count <= CAP, "C07-W1: more entries in a blob than its index page holds");
+                    // count field of the sealed page == entries of the blob so far
+                    let cnt = u32::from_be_bytes([part.index[8], part.index[9], part.index[10], part.index[11]]) as usize;
+                    assert!(cnt == open_count, "C07-W2: sealed index page announces a different number of entries than the blob holds");
+                    cur = at;
+                    last_part = Some(part);
                 }
+                pi += 1;
             }
-            pi += 1;
         }
         bi += 1;
     }
     assert!(seen == N, "C07-W1: an entry was lost by the splitter");
+    // ---- W2: the last sealed index page through the real reader (only where the entry count is small: the reader's loop
+    //      runs `count` times); scanner step (scanner.rs: last.offset + last.aligned()) lands at the end of the blob ----
+    if let Some(part) = last_part {
+        if open_count <= 4 {
+            match BlobIndexReader::read(&part.index) {
+                None => panic!("C07-W2: index page written by the splitter is rejected by the reader"),
+                Some(v) => {
+                    assert!(v.len() == open_count, "C07-W2: reader sees a different number of entries than the blob holds");
+                    let last = &v[v.len() - 1];
+                    assert!(*last == part.indices[part.indices.len() - 1], "C07-W2: reader returns a different entry than the splitter recorded");
+                    assert!(part.blob_block_offset + last.offset as usize + last.aligned() == cur, "C07-W2: scanner step does not land at the end of the blob");
+                    kani::cover!(true, "opt: reader agreed");
+                    std::mem::forget(v);
+                }
+            }
+        }
+    }
     // where the next batch continues is where the walk ended (same blob) or a fresh blob at/after it
     if ctx.current_blob_index.count > 0 {
         assert!(ctx.current_blob_block_offset == open_blob && ctx.current_blob_block_offset + ctx.current_part_blob_offset == cur && ctx.current_blob_index.count == open_count,
@@ -200,18 +218,25 @@ fn w1<const N: usize, const BP: usize>() {
 }
 
 macro_rules! w1h {
-    ($name:ident, $n:expr, $bp:expr, $unwind:expr) => {
-        verif_harness_ns! { #[kani::stub(crate::serde::Checksummer::checksum64, stubs::checksum64_head)] $name, $unwind, { w1::<$n, $bp>(); } }
+    ($name:ident, $n:expr, $bp:expr, $c:expr, $unwind:expr) => {
+        verif_harness_ns! { #[kani::stub(crate::serde::Checksummer::checksum64, stubs::checksum64_head)] $name, $unwind, { w1::<$n, $bp, $c>(); } }
     };
 }
 // 4-page block (16 KiB): block-full / block-exactly-full boundaries; the index can never fill (one entry per page)
-w1h!(c07_w1_split_1, 1, 4, 5);
-w1h!(c07_w1_split_2, 2, 4, 6);
-w1h!(c07_w1_split_3, 3, 4, 7);
-// 256-page block (1 MiB, offsets only - no such allocation): the open blob may hold up to CAP-1 = 169 entries, so the
-// index-full boundary (split because the index page is full, in the middle of a batch and at its end) is inside the space
-w1h!(c07_w1_split_big_2, 2, 256, 6);
-w1h!(c07_w1_split_big_3, 3, 256, 7);
+w1h!(c07_w1_b4_n1_c0, 1, 4, 0, 5);
+w1h!(c07_w1_b4_n1_c1, 1, 4, 1, 5);
+w1h!(c07_w1_b4_n2_c0, 2, 4, 0, 6);
+w1h!(c07_w1_b4_n2_c1, 2, 4, 1, 6);
+w1h!(c07_w1_b4_n3_c0, 3, 4, 0, 7);
+w1h!(c07_w1_b4_n3_c2, 3, 4, 2, 7);
+// 256-page block (1 MiB, offsets only - no such allocation): the open blob holds 168 / 169 entries, so the index-full
+// boundary (split because the index page is full, in the middle of a batch and exactly at its end) is inside the space
+w1h!(c07_w1_b256_n2_c168, 2, 256, 168, 6);
+w1h!(c07_w1_b256_n2_c169, 2, 256, 169, 6);
+w1h!(c07_w1_b256_n3_c167, 3, 256, 167, 7);
+w1h!(c07_w1_b256_n3_c168, 3, 256, 168, 7);
+w1h!(c07_w1_b256_n1_c169, 1, 256, 169, 5);
+w1h!(c07_w1_b256_n2_c0, 2, 256, 0, 6);
 
 // the invariant holds initially
 verif_harness_ns! { #[kani::stub(crate::serde::Checksummer::checksum64, stubs::checksum64_head)] c07_w1_inv_init, 3, {
@@ -243,9 +268,12 @@ fn w4(pre_count: usize) {
     std::mem::forget(bi);
 }
 verif_harness_ns! { #[kani::stub(crate::serde::Checksummer::checksum64, stubs::checksum64_head)] c07_w4_index_slots, 3, {
-    let c: usize = kani::any();
-    kani::assume(c <= CAP);
-    w4(c);
+    // boundary counts are concrete (a symbolic count costs 10 min in the slot-address multiplication); slot contents symbolic
+    w4(0);
+    w4(1);
+    w4(CAP - 2);
+    w4(CAP - 1);
+    w4(CAP);
 } }
 
 /// W3: `Buffer::push_slice` bookkeeping for a sequence of 3 pushes of symbolic lengths into a 4-page buffer:
@@ -256,8 +284,7 @@ verif_harness! { c07_w3_push_slice, 5, {
     let max_entry: usize = pages(4);
     kani::assume(max_entry >= PAGE);
     let mut buffer = Buffer { bytes: IoSliceMut::new(BUF), written: 0, entry_infos: Vec::with_capacity(3), max_entry_size: max_entry,
-        // push_slice never touches the metrics; a dangling, never dereferenced, forgotten Arc avoids building the registry
-        metrics: unsafe { Arc::from_raw(std::ptr::NonNull::<Metrics>::dangling().as_ptr()) } };
+        metrics: Arc::new(Metrics::noop()) };
     let src = [0u8; 3 * PAGE];
     let mut expect_written = 0usize;
     let mut accepted = 0usize;
@@ -317,8 +344,12 @@ fn d3a(n: usize) {
     let pos: usize = kani::any();
     kani::assume(pos < 8 + 32);
     let val: u8 = kani::any();
-    kani::assume(val != page[pos]);
-    page[pos] = val;
+    // the symbolic index goes into a 40-byte stack array (cheap), which is then copied over the head of the page
+    let mut head = [0u8; 40];
+    head.copy_from_slice(&page[..40]);
+    kani::assume(val != head[pos]);
+    head[pos] = val;
+    page[..40].copy_from_slice(&head);
     let stored = u64::from_be_bytes([page[0], page[1], page[2], page[3], page[4], page[5], page[6], page[7]]);
     let mismatch = stubs::checksum64_head(&page[8..]) != stored;
     let r = BlobIndexReader::read(&page);
@@ -346,3 +377,11 @@ verif_harness_ns! { #[kani::stub(crate::serde::Checksummer::checksum64, stubs::c
     kani::cover!(true, "end reached");
     std::mem::forget(page);
 } }
+
+// native replay of counterexamples: bin/check writes the unit test Kani generated (`--concrete-playback=print`) into the
+// included file and runs `cargo kani playback`; the file is empty otherwise.
+#[allow(unused_imports, dead_code)]
+mod playback {
+    use super::*;
+    include!("/verif/harness/playback/foyer-storage/engine__block__buffer__verif_kani.rs");
+}
